@@ -48,9 +48,11 @@ pub fn gen_plan(rng: &mut Rng, focus: &str, tier: &str, case_idx: u64) -> Plan {
     let deep_ref = focus == "c20" && case_idx == 4;
     let stack_only = focus == "c20" && (case_idx == 1 || case_idx == 2 || deep_ref);
     let low_principal = focus == "c20" && case_idx == 2;     // the principal mapping lies BELOW the executable
-    let many = boundary || (focus == "c06" && rng.chance(1, 2));
+    // one fixed C06 shape per run: a crash context blaming a thread at a list position >= 20 under a size limit (never shortened)
+    let late_fixed = focus == "c06" && case_idx == 2;
+    let many = boundary || late_fixed || (focus == "c06" && rng.chance(1, 2));
     let interrupted = focus == "c04" && case_idx == 1;   // one fixed C04 shape per run: many threads, the dumping thread is interrupted all along
-    let nthreads = if force_k1 || stack_only { 3 } else if interrupted { 24 } else if boundary { 27 } else if many { rng.range(19, if tier == "thorough" { 63 } else { 26 }) } else { match rng.below(4) { 0 => 0, 1 => 1, _ => rng.range(2, 6) } } as usize;
+    let nthreads = if force_k1 || stack_only { 3 } else if interrupted { 24 } else if late_fixed { 26 } else if boundary { 27 } else if many { rng.range(19, if tier == "thorough" { 63 } else { 26 }) } else { match rng.below(4) { 0 => 0, 1 => 1, _ => rng.range(2, 6) } } as usize;
     let offs = [0u32, 8, 2040, 2047, 2048, 2056, 4088, 4095, 0xea0, 0x10];
     let threads: Vec<ThreadSpec> = (0..nthreads).map(|i| ThreadSpec {
         kind: if force_k1 && i == 1 { Kind::NullSp } else if boundary || stack_only || interrupted { Kind::Block } else if focus == "c04" && rng.chance(1, 5) { Kind::Spin } else if rng.chance(1, 12) { Kind::NullSp } else { Kind::Block },
@@ -85,7 +87,7 @@ pub fn gen_plan(rng: &mut Rng, focus: &str, tier: &str, case_idx: u64) -> Plan {
             lines.push(format!("appmem 3 {off} {len}")); napp += 1;
         }
     }
-    let blame_late = focus == "c06" && many && !boundary && rng.chance(1, 2);
+    let blame_late = late_fixed || (focus == "c06" && many && !boundary && rng.chance(1, 2));
     if lost_crash_stack { return Plan { scen: Scenario { threads, lines }, blame_late: false, crash: 1, limit: None, sanitize: false, user_maps: vec![], skip: 6, napp, blame_idx: None, exit_between: None }; }
     if stack_only { return Plan { scen: Scenario { threads, lines }, blame_late: false, crash: 0, limit: None, sanitize: !low_principal, user_maps: vec![], skip: if low_principal { 5 } else { 4 }, napp, blame_idx: None, exit_between: None }; }
     Plan { scen: Scenario { threads, lines }, blame_late, crash: if blame_late { 2 } else if force_k1 { 3 } else if focus == "c05" || focus == "c07" { rng.below(4) as u8 } else if rng.chance(1, 3) { rng.range(1, 2) as u8 } else { 0 },
